@@ -204,14 +204,14 @@ def check_len(prog: Program, res: Result) -> None:
                    f"a second length is returned under `{short(g[0].test, 40)}`", f"{ln.module.relpath}:{r.lineno}")
         b = ci.methods.get(builder)
         res.touch(b)
-        apps = [c for c in astq.method_calls(b.node, "append") if norm(c.func.value).endswith("idx_list")]
-        res.ob(R, len(apps) == 1, b.qualname, "one append to the index list", f"{len(apps)} appends to the index list", b.where)
-        for c in apps:
-            guards = [a for a in ancestors(c) if isinstance(a, ast.If)]
-            g = guards[0] if guards else None
-            ok, why = _nonempty_guard(b.node, g.test) if g is not None else (False, "no condition")
-            res.ob(R, ok, b.qualname, "only non-empty entries are indexed", f"an index is appended under `{short(g.test, 30) if g else 'no condition'}` ({why}): empty instances produce samples",
-                   f"{b.module.relpath}:{c.lineno}")
+        lnames = {norm(c.func.value) for c in astq.method_calls(b.node, "append") + astq.method_calls(b.node, "extend") if norm(c.func.value).endswith("idx_list")}
+        builds = [bd for ln_ in lnames for bd in astq.list_builds(b.node, ln_)]
+        res.ob(R, len(builds) == 1, b.qualname, "one place fills the index list", f"{len(builds)} places fill the index list", b.where)
+        for bd in builds:
+            g = bd.conds[-1] if bd.conds else None
+            ok, why = _nonempty_guard(b.node, g) if g is not None else (False, "no condition")
+            res.ob(R, ok, b.qualname, "only non-empty entries are indexed", f"an index is appended under `{short(g, 30) if g is not None else 'no condition'}` ({why}): empty instances produce samples",
+                   f"{b.module.relpath}:{bd.site.lineno}")
         if builder == "_get_lf_idx_list":
             res.count(R)
         init = ci.methods.get("__init__")
